@@ -45,7 +45,7 @@ check("C08", "exploration",
 # properties deliberately not claimed (reason); anything else missing from CHECKS is listed as "not built yet"
 NOT_APPLICABLE = {}
 
-HOOK_COMMITS = ["45bc492", "e36cf10", "3319613", "69852e4", "f4a53ae", "1c4db3c", "0212cac", "4b47353", "ce43167"]
+HOOK_COMMITS = ["45bc492", "e36cf10", "3319613", "69852e4", "f4a53ae", "1c4db3c", "0212cac", "4b47353", "ce43167", "97dee5a"]
 
 check("C13", "model_checking",
       "MPC channels H1->H2 of the real Gateway over the in-memory transport: message width {1,3,4,8,14,32 bytes} x k = 1..5 (6) "
@@ -416,9 +416,13 @@ check("C06", "exploration",
       "cross-shard randomness over real gateways for 2,3,5 shards (identical on all shards of a helper, matching the neighbours, "
       "different from per-shard randomness); the debug duplicate-(step,index) monitor stays silent over attribution queries with and "
       "without padding, both modes, 1-2 shards (and, through the shared panic hook, over every other check's runs). "
-      "distinct_nontrivial = distinct 128-bit values observed. Sequential vs indexed: the first 64 words of the sequential stream of 3 gates against both halves of the indexed values 0..64 of 8 children (incl. the names the generator code uses) and a sibling of each; indices wider than 32 bits (2^32, 2^32+5, 2^63+5, ... u128::MAX) must be refused or must not alias a small index.",
+      "distinct_nontrivial = distinct 128-bit values observed. Sequential vs indexed: the first 64 words of the sequential stream of 3 gates against both halves of the indexed values 0..64 of 8 children (incl. the names the generator code uses) and a sibling of each; indices wider than 32 bits (2^32, 2^32+5, 2^63+5, ... u128::MAX) must be refused or must not alias a small index. End of a sequential stream (hook H12 positions the private "
+      "32-bit counter 0, 1, 4 and 17 indices before its last value): the remaining indices are handed out, equal on both holders and "
+      "distinct from the first 64 values of the stream, then the generator refuses - it never wraps around to index 0.",
       [{"name": "prss", "config": "A", "test": "verif::c06::run", "timeout": {"quick": 900, "thorough": 3600},
-        "require": {"any": {"prss_values_compared": 100000, "cross_shard_points": 40, "protocol_runs_monitored": 5}}}],
+        "require": {"any": {"prss_values_compared": 100000, "cross_shard_points": 40, "protocol_runs_monitored": 5}}},
+       {"name": "prss-end", "config": "A", "test": "protocol::prss::verif::c06p::run",
+        "require": {"any": {"sequential_end_cases": 4}}}],
       assumptions=["pseudo-randomness of AES/HKDF is assumed; 'unrelated' is checked as pairwise distinctness over the alphabet",
                    "index reuse inside protocols is observed through the crate's own debug-assertion monitor"],
       exhaustive=True, engine="E5 domain",
